@@ -1,10 +1,369 @@
 package rules
 
-import "elyslint/core"
+import (
+	"crypto/sha256"
+	"encoding/hex"
+	"encoding/json"
+	"fmt"
+	"io/fs"
+	"os"
+	"os/exec"
+	"path/filepath"
+	"regexp"
+	"runtime"
+	"sort"
+	"strings"
+	"syscall"
 
-// Thorough runs the extra work of the thorough tier (sensitivity witnesses etc.).
+	"elyslint/core"
+
+	"golang.org/x/tools/go/ssa"
+)
+
+// Thorough runs the extra work of the thorough tier (DESIGN §1.2, §3.3):
+//
+//  1. the call graph every reachability rule stands on (repo-CHA) is cross-checked against
+//     a whole-program VTA graph built from source for all 1469 packages: an Elys→Elys VTA
+//     edge that repo-CHA lacks is an under-approximation and fails the run, and a
+//     framework-invoked state-writing function that no root reaches is a missed root;
+//  2. the sensitivity witnesses of the property (independently seeded changes and the
+//     reverse of every repair commit) are replayed as in-memory overlays of the *current*
+//     tree and the property's own checker must report them.
 func Thorough(prop string, P *core.Program, R *core.Report) {
+	cgCrossCheck(P, R)
 	runWitnesses(prop, P, R)
 }
 
-func runWitnesses(prop string, P *core.Program, R *core.Report) {}
+// ---- 1. call-graph cross-check -------------------------------------------------------
+
+type vtaCache struct {
+	Edges []string          `json:"edges"`
+	Ext   map[string]string `json:"ext"`
+	Funcs int               `json:"funcs"`
+}
+
+// treeHash identifies the analysed sources (and the analyser), so that the 50 s VTA build
+// is shared between the thorough runs of different properties on one unchanged tree.
+func treeHash(dir string) string {
+	h := sha256.New()
+	var files []string
+	for _, sub := range []string{"x", "app", "cmd", "utils", "testutil", "wasmbindings", "api"} {
+		filepath.WalkDir(filepath.Join(dir, sub), func(p string, d fs.DirEntry, err error) error {
+			if err == nil && !d.IsDir() && strings.HasSuffix(p, ".go") {
+				files = append(files, p)
+			}
+			return nil
+		})
+	}
+	files = append(files, filepath.Join(dir, "go.mod"), filepath.Join(dir, "go.sum"))
+	if exe, err := os.Executable(); err == nil {
+		files = append(files, exe)
+	}
+	sort.Strings(files)
+	for _, f := range files {
+		b, _ := os.ReadFile(f)
+		fmt.Fprintf(h, "%s %d\n", f, len(b))
+		h.Write(b)
+	}
+	return hex.EncodeToString(h.Sum(nil))[:24]
+}
+
+func vtaEdges(P *core.Program) (*vtaCache, bool, error) {
+	cdir := filepath.Join(core.VerifDir(), "out", "cache")
+	os.MkdirAll(cdir, 0o755)
+	// single flight: concurrent thorough runs wait for one VTA build instead of each
+	// holding ~6 GB
+	if lf, err := os.OpenFile(filepath.Join(cdir, "vta.lock"), os.O_CREATE|os.O_RDWR, 0o644); err == nil {
+		defer lf.Close()
+		syscall.Flock(int(lf.Fd()), syscall.LOCK_EX)
+		defer syscall.Flock(int(lf.Fd()), syscall.LOCK_UN)
+	}
+	cf := filepath.Join(cdir, "vta-"+treeHash(P.Dir)+".json")
+	if os.Getenv("ELYSLINT_NOCACHE") == "" {
+		if b, err := os.ReadFile(cf); err == nil {
+			var c vtaCache
+			if json.Unmarshal(b, &c) == nil && len(c.Edges) > 0 {
+				return &c, true, nil
+			}
+		}
+	}
+	edges, ext, nf, err := core.VTAEdgesExt(P.Dir)
+	if err != nil {
+		return nil, false, err
+	}
+	c := &vtaCache{Edges: core.SortedKeys(edges), Ext: ext, Funcs: nf}
+	runtime.GC()
+	if b, err := json.Marshal(c); err == nil {
+		old, _ := filepath.Glob(filepath.Join(cdir, "vta-*.json"))
+		for _, o := range old {
+			os.Remove(o)
+		}
+		tmp := cf + ".tmp"
+		if os.WriteFile(tmp, b, 0o644) == nil {
+			os.Rename(tmp, cf)
+		}
+	}
+	return c, false, nil
+}
+
+func cgCrossCheck(P *core.Program, R *core.Report) {
+	c, cached, err := vtaEdges(P)
+	if err != nil {
+		R.Undecided("cg-vta", "-", "whole-program load", "-", "VTA cross-check could not be built: "+err.Error())
+		return
+	}
+	if len(c.Edges) < 10000 || c.Funcs < 100000 {
+		R.Undecided("cg-vta", "-", "whole-program load", "-", fmt.Sprintf("VTA graph implausibly small (%d Elys edges over %d functions; confirmed by hand: 18722 over 169101): the cross-check would pass vacuously", len(c.Edges), c.Funcs))
+		return
+	}
+	chaSet := P.CHAEdgeSet()
+	roots := P.FindRoots()
+	reach := P.Reach(roots.All())
+	reachKey := map[string]bool{}
+	for f := range reach {
+		reachKey[P.Key(f)] = true
+	}
+	// predecessors in repo-CHA by key, and reachability between keys
+	byKey := map[string]*ssa.Function{}
+	for _, f := range P.Funcs {
+		byKey[P.Key(f)] = f
+	}
+	agree, covered := 0, 0
+	for _, e := range c.Edges {
+		if chaSet[e] {
+			agree++
+			continue
+		}
+		parts := strings.SplitN(e, " → ", 2)
+		caller, callee := parts[0], parts[1]
+		if !reachKey[caller] {
+			continue // caller is not reachable from any analysis root: no rule looks at it
+		}
+		// repo-CHA models a function value by an edge maker → function at the place the
+		// value is created (closure passed to an iterator, sibling closure captured as a
+		// free variable).  That is equivalent for every reachability rule provided the
+		// invoking function is itself called downstream of the maker.
+		cf, tf := byKey[caller], byKey[callee]
+		ok := false
+		why := "VTA resolves a call that repo-CHA does not: every reachability rule would miss this edge"
+		if cf != nil && tf != nil {
+			for _, in := range P.CG().In[tf] {
+				mk := in.Caller
+				if mk == cf || P.Reach([]*ssa.Function{mk})[cf] {
+					ok = true
+					why = "function value: repo-CHA has the maker edge " + P.Key(mk) + " → " + callee + " and the maker reaches the invoking function"
+					break
+				}
+			}
+		}
+		if ok {
+			covered++
+		}
+		pos := "-"
+		if cf != nil {
+			pos = P.Pos(cf.Pos())
+		}
+		R.Add("cg-vta-edge", caller, "→ "+callee, pos, ok, why)
+	}
+	// framework entry points: an Elys function with a body, hand written, that may write
+	// state and is invoked by code outside the module must be reachable from a root
+	mw := P.MayWrite()
+	off := offchainEntries()
+	var eks []string
+	for k := range c.Ext {
+		eks = append(eks, k)
+	}
+	sort.Strings(eks)
+	nEntry := 0
+	for _, k := range eks {
+		f := byKey[k]
+		if f == nil || !mw[f] {
+			continue
+		}
+		if core.IsGeneratedOrAux(P.File(f.Pos())) {
+			continue
+		}
+		nEntry++
+		if reachKey[k] {
+			R.Add("cg-vta-entry", k, "invoked by "+c.Ext[k], P.Pos(f.Pos()), true, "state-writing function invoked by the framework is reachable from an analysis root")
+			continue
+		}
+		reason := ""
+		for _, o := range off {
+			if o.re.MatchString(k) {
+				reason = o.Reason
+			}
+		}
+		R.Add("cg-vta-entry", k, "invoked by "+c.Ext[k], P.Pos(f.Pos()), reason != "",
+			"state-writing function invoked by the framework but reachable from no analysis root"+map[bool]string{true: "; off-chain by table: " + reason, false: " and not listed in tables/cg_offchain.json"}[reason != ""])
+	}
+	R.Analysed["vta_functions"] = c.Funcs
+	R.Analysed["vta_elys_edges"] = len(c.Edges)
+	R.Analysed["vta_edges_also_in_repo_cha"] = agree
+	R.Analysed["vta_edges_covered_by_maker_edge"] = covered
+	R.Analysed["vta_framework_entries_checked"] = nEntry
+	if cached {
+		R.Analysed["vta_from_cache_same_tree_hash"] = 1
+	}
+}
+
+type offEntry struct {
+	Pattern string `json:"pattern"`
+	Reason  string `json:"reason"`
+	re      *regexp.Regexp
+}
+
+func offchainEntries() []offEntry {
+	var t struct {
+		Entries []offEntry `json:"entries"`
+	}
+	loadTable("cg_offchain.json", &t)
+	for i := range t.Entries {
+		t.Entries[i].re = regexp.MustCompile(t.Entries[i].Pattern)
+	}
+	return t.Entries
+}
+
+// ---- 2. sensitivity witnesses ---------------------------------------------------------
+
+type witness struct {
+	ID          string   `json:"id"`
+	Property    string   `json:"property"`
+	Patch       string   `json:"patch"`
+	Reverse     bool     `json:"reverse"`
+	ExpectRules []string `json:"expect_rules"`
+	Kind        string   `json:"kind"`
+}
+
+var diffFileRe = regexp.MustCompile(`(?m)^diff --git a/(\S+) b/(\S+)$`)
+
+// overlayFor applies a unified diff to copies of the files it names (taken from the
+// current working tree) in a scratch directory and returns the result as an overlay.
+// /repo itself is never written.
+func overlayFor(repo, patchPath string, reverse bool) (map[string][]byte, error) {
+	pb, err := os.ReadFile(patchPath)
+	if err != nil {
+		return nil, err
+	}
+	ms := diffFileRe.FindAllStringSubmatch(string(pb), -1)
+	if len(ms) == 0 {
+		return nil, fmt.Errorf("no files in patch")
+	}
+	tmp, err := os.MkdirTemp("", "elyslint-witness-")
+	if err != nil {
+		return nil, err
+	}
+	defer os.RemoveAll(tmp)
+	var files []string
+	for _, m := range ms {
+		rel := m[2]
+		files = append(files, rel)
+		src, err := os.ReadFile(filepath.Join(repo, rel))
+		if err != nil {
+			continue // file added by the patch
+		}
+		dst := filepath.Join(tmp, rel)
+		os.MkdirAll(filepath.Dir(dst), 0o755)
+		if err := os.WriteFile(dst, src, 0o644); err != nil {
+			return nil, err
+		}
+	}
+	args := []string{"apply", "--whitespace=nowarn"}
+	if reverse {
+		args = append(args, "-R")
+	}
+	args = append(args, patchPath)
+	cmd := exec.Command("git", args...)
+	cmd.Dir = tmp
+	cmd.Env = append(os.Environ(), "GIT_DIR=/nonexistent", "GIT_CEILING_DIRECTORIES="+filepath.Dir(tmp))
+	if out, err := cmd.CombinedOutput(); err != nil {
+		return nil, fmt.Errorf("does not apply to the current tree: %s", strings.TrimSpace(string(out)))
+	}
+	ov := map[string][]byte{}
+	for _, rel := range files {
+		if !strings.HasSuffix(rel, ".go") {
+			continue
+		}
+		b, err := os.ReadFile(filepath.Join(tmp, rel))
+		if err != nil {
+			return nil, fmt.Errorf("patched file %s missing (deletions are not supported as witnesses)", rel)
+		}
+		ov[filepath.Join(repo, rel)] = b
+	}
+	return ov, nil
+}
+
+func runWitnesses(prop string, P *core.Program, R *core.Report) {
+	var idx []witness
+	b, err := os.ReadFile(filepath.Join(core.VerifDir(), "witnesses", "index.json"))
+	if err != nil || json.Unmarshal(b, &idx) != nil {
+		R.Extra["witness_note"] = "witnesses/index.json unreadable; no sensitivity witnesses replayed"
+		return
+	}
+	c := Get(prop)
+	killed, survived, stale := 0, 0, 0
+	for _, w := range idx {
+		if w.Property != prop {
+			continue
+		}
+		res := map[string]any{"id": w.ID, "kind": w.Kind, "patch": w.Patch, "reverse": w.Reverse, "expect_rules": w.ExpectRules}
+		ov, err := overlayFor(P.Dir, filepath.Join(core.VerifDir(), w.Patch), w.Reverse)
+		if err != nil {
+			stale++
+			res["result"] = "stale"
+			res["detail"] = err.Error()
+			R.Witnesses = append(R.Witnesses, res)
+			continue
+		}
+		P2, err := core.Load(P.Dir, ov)
+		if err != nil {
+			stale++
+			res["result"] = "stale"
+			res["detail"] = "variant does not type-check on the current tree: " + err.Error()
+			R.Witnesses = append(R.Witnesses, res)
+			continue
+		}
+		R2 := core.NewReport(prop, "witness")
+		func() {
+			defer func() {
+				if e := recover(); e != nil {
+					R2.Undecided("analyser-panic", "-", fmt.Sprint(e), "-", "panic")
+				}
+			}()
+			c(P2, R2)
+		}()
+		var fired []string
+		hit := false
+		for _, o := range R2.Violations() {
+			fired = append(fired, o.Key())
+			for _, er := range w.ExpectRules {
+				if o.Rule == er {
+					hit = true
+				}
+			}
+		}
+		sort.Strings(fired)
+		if len(fired) > 6 {
+			fired = append(fired[:6], fmt.Sprintf("… %d more", len(fired)-6))
+		}
+		res["reported"] = fired
+		switch {
+		case hit:
+			killed++
+			res["result"] = "reported by the expected rule"
+		case len(fired) > 0:
+			killed++
+			res["result"] = "reported (by a different rule than recorded)"
+		default:
+			survived++
+			res["result"] = "NOT REPORTED"
+			fmt.Printf("WITNESS-SURVIVED property=%s witness=%s: the variant type-checks on the current tree and the checker reports nothing (checker self-test, not a property verdict)\n", prop, w.ID)
+		}
+		R.Witnesses = append(R.Witnesses, res)
+		P2, R2 = nil, nil
+		runtime.GC()
+	}
+	R.Analysed["witnesses_reported"] = killed
+	R.Analysed["witnesses_not_reported"] = survived
+	R.Analysed["witnesses_stale"] = stale
+}
